@@ -563,7 +563,7 @@ class ConnProxy:
         return self._c.__exit__(*a)
 
 
-def sqlite_two_loops(scratch: str, trigs, setup, k: int, cron_tick=False):
+def sqlite_two_loops(scratch: str, trigs, setup, k: int, mode: str = "loop"):
     """loop A = trigger_loop_iteration of app A paused before its k-th SQL statement while loop B (a second app object
     on the same database) runs a whole iteration.  Returns (launches A+B, info)."""
     import pynenc.trigger.sqlite_trigger as st
@@ -584,10 +584,16 @@ def sqlite_two_loops(scratch: str, trigs, setup, k: int, cron_tick=False):
         finally:
             probe.close()
 
+    def b_action():
+        if mode == "loop":
+            b.trg.trigger_loop_iteration()
+        else:                       # concurrent occurrence reporting from another process
+            b.occurrence({"cid": 0, "src": 2, "aux": 0, "n": 2})
+
     def other():
         st.sqlite_conn = real
         try:
-            b.trg.trigger_loop_iteration()
+            b_action()
         finally:
             st.sqlite_conn = wrapped
 
@@ -604,12 +610,14 @@ def sqlite_two_loops(scratch: str, trigs, setup, k: int, cron_tick=False):
     finally:
         st.sqlite_conn = real
     if inj.fired is None:
-        b.trg.trigger_loop_iteration()
+        b_action()
+    if mode == "report":
+        a.trg.trigger_loop_iteration()
     a.flush()
     return a.launches + b.launches, {"points": inj.count, "fired": inj.fired, "where": inj.where, "raised": raised}
 
 
-def mem_two_loops(scratch: str, trigs, setup, k: int):
+def mem_two_loops(scratch: str, trigs, setup, k: int, mode: str = "loop"):
     """loop A traced line by line inside mem_trigger.py / base_trigger.py; at the k-th line loop B runs a whole
     iteration in another thread unless A holds one of the store's locks."""
     a = TrigWorld("mem", scratch, trigs)
@@ -638,7 +646,13 @@ def mem_two_loops(scratch: str, trigs, setup, k: int):
             return ok
         return in_thread(probe)
 
-    inj = Injector(k, lambda: in_thread(trg.trigger_loop_iteration), can_run)
+    def b_action():
+        if mode == "loop":
+            trg.trigger_loop_iteration()
+        else:
+            a.occurrence({"cid": 0, "src": 2, "aux": 0, "n": 2})
+
+    inj = Injector(k, lambda: in_thread(b_action), can_run)
     files = ("pynenc/trigger/mem_trigger.py", "pynenc/trigger/base_trigger.py")
     skip = {"execute_task", "rec"}
 
@@ -658,6 +672,8 @@ def mem_two_loops(scratch: str, trigs, setup, k: int):
     finally:
         sys.settrace(None)
     if inj.fired is None:
+        b_action()
+    if mode == "report":
         trg.trigger_loop_iteration()
     a.flush()
     return list(a.launches), {"points": inj.count, "fired": inj.fired, "where": inj.where, "raised": raised}
@@ -686,11 +702,15 @@ def run_two_loops(ctx: Ctx, scratch: str, facts: dict):
 
     summary = {}
     n_runs = 0
+    report_trigs = [{"conds": [0], "logic": "or", "static": True}]
     scenarios = [("claim", trigs, setup_claim, 2), ("cron-first", cron_trigs, setup_cron(False), 1),
-                 ("cron-next", cron_trigs, setup_cron(True), 1)]
+                 ("cron-next", cron_trigs, setup_cron(True), 1), ("report", report_trigs, setup_claim, 2)]
     for name, tr, setup, want in scenarios:
         for kind in ("sqlite", "mem"):
-            runner = sqlite_two_loops if kind == "sqlite" else mem_two_loops
+            base_runner = sqlite_two_loops if kind == "sqlite" else mem_two_loops
+
+            def runner(sc, tr_, setup_, k_, _r=base_runner, _m=("report" if name == "report" else "loop")):
+                return _r(sc, tr_, setup_, k_, _m)
             doubles, excluded, raised = [], 0, []
             launches, info = runner(scratch, tr, setup, -1)      # sequential A then B; counts A's pre-emption points
             n_runs += 1
@@ -717,7 +737,12 @@ def run_two_loops(ctx: Ctx, scratch: str, facts: dict):
                                          "loop_a_raised": len(raised), "first_raise": raised[0] if raised else None}
             if doubles:
                 k0, where, got = doubles[0]
-                if name == "claim":
+                if name == "report":
+                    key = f"{kind}-report-during-loop"
+                    what = (f"{kind}: an occurrence reported while a trigger loop iteration is running is lost or launched twice: "
+                            f"reported at {where} (point {k0}) -> {got} launches for 2 occurrences")
+                    predicted = False
+                elif name == "claim":
                     key = f"{kind}-claim-not-atomic"
                     what = (f"{kind}: two concurrent trigger loops both claim the same run id: loop B run at {where} "
                             f"(point {k0}) -> {got} launches for 2 (trigger, occurrence) pairs")
@@ -742,7 +767,8 @@ def run_two_loops(ctx: Ctx, scratch: str, facts: dict):
                                   f"launched {got} at {where}", {"kind": "two_loops", "scenario": name, "backend": kind, "k": k0,
                                                                 "where": where, "expected_launches": want, "observed": got})
             else:
-                fact = {"claim": "sqlite_claim_immediate" if kind == "sqlite" else "mem_claim_locked",
+                fact = {"report": "claim_guards_launch",
+                        "claim": "sqlite_claim_immediate" if kind == "sqlite" else "mem_claim_locked",
                         "cron-first": f"{kind}_cas_rejects_none",
                         "cron-next": "sqlite_cas_immediate" if kind == "sqlite" else "mem_cas_locked"}[name]
                 if not facts[fact]:
@@ -1013,8 +1039,9 @@ def main(ctx: Ctx) -> int:
     ctx.assumptions += [
         "run ids (SHA-256 of trigger id + valid-condition ids) are modelled as the pair (trigger, set of valid-condition keys): no collisions",
         "croniter agrees with the brute-force 5-field evaluator (checked on the generated family only)",
-        "two concurrent loops are explored with a single pre-emption: loop B runs a whole iteration at each SQL statement (SQLite) / "
-        "source line (in-memory) of loop A, unless A holds the store lock / a write transaction there",
+        "two concurrent loops are explored with a single pre-emption: loop B runs a whole iteration (or, scenario `report`, another "
+        "occurrence is reported) at each SQL statement (SQLite) / source line (in-memory) of loop A, unless A holds the store lock / "
+        "a write transaction there",
         "virtual clock: pynenc.trigger.{base,mem,sqlite}_trigger.datetime replaced by a subclass whose now() is driven by the harness",
         "occurrences are reported through the trigger component's public entry points (emit_event, report_tasks_status, "
         "report_invocation_result, report_invocation_failure) with real invocations of registered tasks; no runner is started",
@@ -1049,7 +1076,7 @@ def replay(ctx: Ctx, path: str) -> int:
             cron_trigs = [{"conds": [4], "logic": "or", "prov": [4], "cron": CronCondition("* * * * *")}]
 
             def setup(w):
-                if rp["scenario"] == "claim":
+                if rp["scenario"] in ("claim", "report"):
                     CLOCK.t, CLOCK.tick = T0, timedelta(0)
                     w.occurrence({"cid": 0, "src": 1, "aux": 0, "n": 1})
                 else:
@@ -1057,7 +1084,10 @@ def replay(ctx: Ctx, path: str) -> int:
                     if rp["scenario"] == "cron-next":
                         w.trg.store_last_cron_execution(cron_trigs[0]["cron"].condition_id, T0 - timedelta(minutes=3), None)
             runner = sqlite_two_loops if rp["backend"] == "sqlite" else mem_two_loops
-            launches, info = runner(scratch, trigs if rp["scenario"] == "claim" else cron_trigs, setup, rp["k"])
+            if rp["scenario"] == "report":
+                launches, info = runner(scratch, [{"conds": [0], "logic": "or", "static": True}], setup, rp["k"], "report")
+            else:
+                launches, info = runner(scratch, trigs if rp["scenario"] == "claim" else cron_trigs, setup, rp["k"])
             print("loop B run at", info, "-> launches", launches, "expected", rp["expected_launches"])
         elif rp["kind"] == "cron_sat":
             conf = rp["conf"]
